@@ -36,7 +36,7 @@ macro_rules | `(tactic| chain_congr $n) => do
 
 /-- closes what is left of a round lemma after the generated loop has been unfolded once (nothing, when the two sides
     are already identical): unfold the generated word functions and compare -/
-macro "round_eq" : tactic => `(tactic| ((try simp only [gen_defs]) <;> chain_congr 6))
+macro "round_eq" : tactic => `(tactic| ((try simp only [gen_defs]) <;> (try simp only [BitVec.mul_comm]) <;> chain_congr 6))
 
 /-! ## `impl Limb`: the wrappers are the primitives -/
 
